@@ -30,7 +30,7 @@ META = {
                   "rejected_assignments": 1500, "reads": 2000, "raising_handler_calls": 1500,
                   "oldnew_checked": 15000, "listeners_leaving_during_delivery": 1200,
                   "listener_owners_dropped_during_delivery": 400,
-                  "listeners_joining_during_delivery": 400},
+                  "listeners_joining_during_delivery": 400, "reused_definitions": 500},
         "thorough": {"evaluations": 4000000, "notifying_assignments": 1500000,
                      "silent_assignments": 400000, "rejected_assignments": 400000, "reads": 500000,
                      "raising_handler_calls": 400000, "oldnew_checked": 4000000,
@@ -39,7 +39,7 @@ META = {
                      "other_trait_assignments": 700000,
                      "listeners_leaving_during_delivery": 300000,
                      "listener_owners_dropped_during_delivery": 100000,
-                     "listeners_joining_during_delivery": 100000},
+                     "listeners_joining_during_delivery": 100000, "reused_definitions": 120000},
     },
     "assumptions": [
         "value pools avoid objects whose == and != are mutually inconsistent (the statement's "
@@ -222,6 +222,12 @@ def run_history(ctx, h, legacy_errs, obs_errs):
             ctx.count("raising_handler_calls")
             raise exc("boom")
     ns = {"x": KINDS[kind](mode), "other": Int(0)}
+    # one trait definition object serving several attributes / classes: the definition has
+    # already been turned into a class trait (twice) before the class under test is built
+    reused = rng.random() < 0.3
+    if reused:
+        MetaHasTraits("Earlier", (HasTraits,), {"x": ns["x"], "z": ns["x"]})
+        ctx.count("reused_definitions")
     is_event = kind in ("Event", "EventInt", "Button")
     sfx = "fired" if is_event and rng.random() < 0.5 else "changed"
     statics = [lambda self: rec("static"), lambda self, new: rec("static", M, new),
@@ -360,7 +366,8 @@ def run_history(ctx, h, legacy_errs, obs_errs):
     trace = []
     cfg = {"kind": kind, "mode": mode.name, "static_arity": st_ar, "otc_arity": otc_ar,
            "raiser": raiser, "exc": exc.__name__, "suffix": sfx, "layout": cfg_layout,
-           "ymode": ymode.name, "extra_listeners": [(e["kind"], e["at"]) for e in extras]}
+           "ymode": ymode.name, "extra_listeners": [(e["kind"], e["at"]) for e in extras],
+           "definition_reused": reused}
     ctx.count("layout:" + ("flat" if cfg_layout == "flat" else "split"))
     ypool = [1, 1, 1.0, "a", None, None, x_shared, x_shared, [1], [1]]
 
